@@ -39,7 +39,8 @@ func (t *Target) AccessDeniedHTTP(r *http.Request) bool {
 	}
 
 	// check xff source if present
-	if xff := r.Header.Get("X-Forwarded-For"); xff != "" {
+	// a request may carry several X-Forwarded-For header lines; together they form one list
+	if xff := strings.Join(r.Header.Values("X-Forwarded-For"), ","); xff != "" {
 		// Trusting XFF headers sent from clients is dangerous and generally
 		// bad practice.  Therefore, we cannot assume which if any of the elements
 		// is the actual client address.  To try and avoid the chance of spoofed
